@@ -8,6 +8,7 @@ mod layout;
 mod mon;
 mod prog;
 mod progsrc;
+mod report;
 
 use common::*;
 use std::time::Instant;
